@@ -161,6 +161,140 @@ def sample_ops(traces, n=2):
 
 
 # --------------------------------------------------------------------------------------------
+# (A) the design model checked by TLC, (B) behaviours of the model replayed on the real broker
+MODEL = {"C08": ("MC_Qos", "Gen_Qos"), "C09": ("MC_Qos", "Gen_Qos"), "C10": ("MC_Qos", "Gen_Qos"), "C11": ("MC_Qos", "Gen_Qos"),
+         "C12": ("MC_Qos", "Gen_Qos"), "C03": ("MC_Route", "Gen_Route"), "C06": ("MC_Route", "Gen_Route"),
+         "C14": ("MC_Session", "Gen_Session"), "C15": ("MC_Session", "Gen_Session"), "C16": ("MC_Session", "Gen_Session")}
+MODEL_PROPS = {"MC_Qos": "PidUnique QuotaBound InboundBound NoGhosts OneOwner NoOvertaking Qos2Once ExactDelivery InflightMonotone DirectionsIndependent",
+               "MC_Route": "PidUnique QuotaBound NoGhosts OneOwner ExactDelivery", "MC_Session": "PidUnique QuotaBound NoGhosts OneOwner ConnectedHasSession WillOnce ExactDelivery InflightMonotone"}
+
+
+def design_check(ctx, mc, maxhist):
+    """(A) TLC checks the design model exhaustively for the bounded configuration; returns (distinct, generated)"""
+    import re
+    cfg = open(os.path.join(VERIF, "spec", mc + ".cfg")).read()
+    cfg = re.sub(r"MaxHist = \d+", "MaxHist = %d" % maxhist, cfg)
+    d = ctx.path("tlc", "design_" + mc, "x")[:-2]
+    shutil.rmtree(d, ignore_errors=True)
+    os.makedirs(d)
+    for fn in ("MqttBroker.tla", "MC_Broker.tla", "BrokerOps.tla", "MqttTopics.tla"):
+        shutil.copy(os.path.join(VERIF, "spec", fn), d)
+    open(os.path.join(d, "mc.cfg"), "w").write(cfg)
+    args = ["java", "-XX:+UseParallelGC", "-Xss64m", "-Xmx12g", "-cp", "/opt/veriftools/tla/tla2tools.jar:/opt/veriftools/tla/CommunityModules-deps.jar",
+            "tlc2.TLC", "-metadir", os.path.join(d, "_meta"), "-config", "mc.cfg", "-workers", "8", "-noGenerateSpecTE", "MC_Broker.tla"]
+    t0 = time.time()
+    try:
+        r = subprocess.run(args, cwd=d, capture_output=True, text=True, timeout=1500)
+    except subprocess.TimeoutExpired:
+        raise Inconclusive("TLC timeout on design model %s" % mc)
+    out = r.stdout + r.stderr
+    m = re.search(r"(\d+) states generated, (\d+) distinct states found", out)
+    if "No error has been found" not in out or not m:
+        sys.stderr.write(out[-3000:])
+        raise Inconclusive("design model %s: TLC did not complete cleanly (a property of the SPECIFICATION failed or TLC crashed)" % mc)
+    shutil.rmtree(d, ignore_errors=True)
+    ctx.log("design model %s (MaxHist=%d): %s distinct / %s generated states, properties %s hold (%.1fs)" %
+            (mc, maxhist, m.group(2), m.group(1), MODEL_PROPS.get(mc, ""), time.time() - t0))
+    return int(m.group(2)), int(m.group(1))
+
+
+def model_to_ops(hist, observer=False):
+    ops, nm, open2 = [], 0, {}
+    npid = [0]
+
+    def pid():
+        npid[0] += 1
+        return 200 + npid[0]
+    conn_client = {}
+    if observer:
+        ops.append(gen.op("connect", k="kobs", id="obs", v=5, clean=True, sei=0))
+        ops.append(gen.op("subscribe", k="kobs", pid=pid(), filters=[dict(f=["#"], qos=0, nl=False, rap=False, rh=2)]))
+    for h in hist:
+        o = h["op"]
+        if o == "connect":
+            conn_client[h["k"]] = h["id"]
+            d = gen.op("connect", k=h["k"], id=h["id"], v=5, clean=h["clean"], rm=h["rm"], sei=10 * h["sei"])
+            if h.get("will"):
+                d["will"] = dict(t=["w", h["id"]], m="w" + h["k"], qos=0, retain=False, delay=10 * h["delay"])
+            ops.append(d)
+        elif o == "subscribe":
+            ops.append(gen.op("subscribe", k=h["k"], pid=pid(), filters=[dict(f=list(h["f"]), qos=h["qos"], nl=h["nl"], rap=False, rh=0)]))
+        elif o == "unsubscribe":
+            ops.append(gen.op("unsubscribe", k=h["k"], pid=pid(), filters=[dict(f=list(h["f"]), qos=0, nl=False, rap=False, rh=0)]))
+        elif o == "publish":
+            c = conn_client.get(h["k"], "")
+            key = (c, h["pid"])
+            if h["dup"] and key in open2:
+                m = open2[key]
+            else:
+                nm += 1
+                m = "m%d" % nm
+            d = gen.op("publish", k=h["k"], t=list(h["t"]), m=m, qos=h["qos"], retain=h["retain"], dup=bool(h["dup"]))
+            if h["qos"] > 0:
+                d["pid"] = 100 + h["pid"]
+            if h["qos"] == 2:
+                open2[key] = m
+            ops.append(d)
+        elif o == "pubrel":
+            open2.pop((conn_client.get(h["k"], ""), h["pid"]), None)
+            ops.append(gen.op("pubrel", k=h["k"], pid=100 + h["pid"]))
+        elif o in ("puback", "pubrec", "pubcomp"):
+            ops.append(gen.op(o, k=h["k"], nth=h["nth"]))
+        elif o in ("disconnect", "netdrop"):
+            ops.append(gen.op(o, k=h["k"], rc=0))
+        elif o == "tick":
+            ops.append(gen.op("tick", kind="wills", dt=10 * h["dt"] + 5))
+            ops.append(gen.op("tick", kind="clients", dt=10 * h["dt"] + 5))
+    return ops
+
+
+def model_histories(ctx, gencfg, n, observer=False):
+    """(B) random walks of the design model (tlc -simulate), each emitted as an operation list"""
+    import re
+    d = ctx.path("tlc", "gen_" + gencfg, "x")[:-2]
+    shutil.rmtree(d, ignore_errors=True)
+    os.makedirs(d)
+    for fn in ("MqttBroker.tla", "MC_Broker.tla", "BrokerOps.tla", "MqttTopics.tla", gencfg + ".cfg"):
+        shutil.copy(os.path.join(VERIF, "spec", fn), d)
+    depth = int(re.search(r"MaxHist = (\d+)", open(os.path.join(d, gencfg + ".cfg")).read()).group(1))
+    args = ["java", "-XX:+UseParallelGC", "-Xss64m", "-Xmx4g", "-cp", "/opt/veriftools/tla/tla2tools.jar:/opt/veriftools/tla/CommunityModules-deps.jar",
+            "tlc2.TLC", "-metadir", os.path.join(d, "_meta"), "-config", gencfg + ".cfg", "-workers", "1", "-noGenerateSpecTE",
+            "-simulate", "num=%d" % n, "-depth", str(depth), "-seed", str(ctx.seed), "MC_Broker.tla"]
+    try:
+        r = subprocess.run(args, cwd=d, capture_output=True, text=True, timeout=900)
+    except subprocess.TimeoutExpired:
+        raise Inconclusive("TLC timeout generating behaviours from %s" % gencfg)
+    if "Error:" in r.stdout and "violated" in r.stdout:
+        sys.stderr.write(r.stdout[-3000:])
+        raise Inconclusive("design model %s violates one of its invariants during simulation" % gencfg)
+    hs = []
+    for line in r.stdout.splitlines():
+        if line.startswith('<<"HIST"'):
+            js = line[line.index(",") + 1:].strip()
+            js = js[:-2].strip()            # drop the closing >>
+            js = json.loads(js)             # TLC prints the JSON text as a TLA+ string literal
+            hist = json.loads(js) if isinstance(js, str) else js
+            hs.append(model_to_ops(hist, observer))
+    shutil.rmtree(d, ignore_errors=True)
+    if not hs:
+        sys.stderr.write(r.stdout[-2000:])
+        raise Inconclusive("no behaviours generated from %s" % gencfg)
+    ctx.log("TLC generated %d behaviours of the design model (%s, depth %d)" % (len(hs), gencfg, depth))
+    return hs
+
+
+def with_model(ctx, pid, hs, cfgmaker):
+    """prepend design check + model-generated histories for properties the design model covers"""
+    states = trans = 0
+    if pid in MODEL:
+        mc, gencfg = MODEL[pid]
+        states, trans = design_check(ctx, mc, 6 if ctx.quick else 7)
+        mh = model_histories(ctx, gencfg, 60 if ctx.quick else 1500, observer=(mc == "MC_Session"))
+        for i, ops in enumerate(mh):
+            hs.append(dict(name="%s-model-%d" % (pid, i), cfg=cfgmaker(), ops=ops))
+    return states, trans
+
+
 PROFILES = {
     "C03": dict(versions=[5, 5, 4], rpi=[-1, -1, 0, 1], shared=0.15, nolocal=0.3, props=0.6, subid=0.3, qos=[0, 1, 2], retain=0.0,
                 weights=dict(subscribe=6, unsubscribe=1, publish=9, disconnect=1, connect=2), acl=2),
@@ -238,13 +372,16 @@ def qos_check(ctx):
     pid = ctx.pid
     n = 120 if ctx.quick else 1500
     hs = qos_histories(ctx, pid, n)
+    dstates, dtrans = with_model(ctx, pid, hs, lambda: gen.cfg(recv_max=2, max_packet_id=4 if pid == "C10" else 0))
     traces = drive(ctx, hs, pid.lower())
     comp, lines, states = validate(ctx, traces, [pid], pid.lower())
+    states, lines_ = (dstates or states), lines
     report(ctx, comp, pid)
     nt = nontrivial(traces, lambda e: e["ev"] in ("publish", "puback", "pubrec", "pubrel", "pubcomp", "connect") and "%s-%s" % (e["ev"], sorted((k == e["k"], p["t"], p["qos"], p["dup"], p["rc"]) for k, ps in e["out"].items() for p in ps)))
     ctx.cov.update(_level="model_checking", states=max(states, 1), transitions=max(lines, 1),
                    traces_validated_against_impl=len(traces), evaluations=lines, distinct_nontrivial=len(nt),
-                   rule="seeded random QoS histories (profile %s: selective acks, reconnects, takeovers, flow control) executed on the real broker; every step judged by TLC with Enforce={%s}; distinct_nontrivial = distinct (op kind x set of packets written) classes" % (pid, pid),
+                   design_model="MC_Qos", design_transitions=dtrans,
+                   rule="(A) TLC checks the design model MqttBroker.tla/MC_Qos.cfg exhaustively (states = its distinct states); (B) random walks of that model (tlc -simulate) and seeded random QoS histories (profile %s: selective acks, reconnects, takeovers, flow control) are executed on the real broker; (C) every step judged by TLC with Enforce={%s}; distinct_nontrivial = distinct (op kind x set of packets written) classes" % (pid, pid),
                    samples=sample_ops(traces), complaints=len(comp))
 
 
@@ -273,8 +410,10 @@ def session_check(ctx):
             if prof.get(key):
                 c[field] = rng.choice(prof[key])
         hs.append(dict(name="%s-%d-%d" % (pid, ctx.seed, i), cfg=c, ops=gen.session_history(rng, prof)))
+    dstates, dtrans = with_model(ctx, pid, hs, lambda: gen.cfg())
     traces = drive(ctx, hs, pid.lower())
     comp, lines, states = validate(ctx, traces, [pid], pid.lower())
+    states = dstates or states
     report(ctx, comp, pid)
     nt = nontrivial(traces, lambda e: e["ev"] in ("connect", "disconnect", "netdrop", "tick", "raw") and "%s-%s-%s" % (e["ev"], e["a"].get("kind", ""), sorted((k == e["k"], p["t"], p["rc"], p["sp"]) for k, ps in e["out"].items() for p in ps)))
     ctx.cov.update(_level="model_checking", states=max(states, 1), transitions=max(lines, 1),
@@ -385,11 +524,12 @@ def routing_check(ctx):
     pid = ctx.pid
     n = 120 if ctx.quick else 1500
     hs = histories_for(ctx, pid, n)
+    dstates, dtrans = with_model(ctx, pid, hs, lambda: gen.cfg(max_qos=1) if pid in ("C03", "C06") else gen.cfg())
     traces = drive(ctx, hs, pid.lower())
     comp, lines, states = validate(ctx, traces, ENFORCE[pid], pid.lower())
     report(ctx, comp, pid)
     nt = nontrivial(traces, NT[pid])
-    ctx.cov.update(_level="model_checking", states=max(states, 1), transitions=max(lines, 1),
+    ctx.cov.update(_level="model_checking", states=max(dstates or states, 1), transitions=max(dtrans or lines, 1), design_model=MODEL.get(pid, ["-"])[0],
                    traces_validated_against_impl=len(traces), evaluations=lines, distinct_nontrivial=len(nt),
                    rule="seeded random histories (profile %s) executed on the real broker; every step judged by TLC with Enforce=%s; distinct_nontrivial = distinct step outcome classes (op kind x observed outputs)" % (pid, ENFORCE[pid]),
                    samples=sample_ops(traces), complaints=len(comp))
